@@ -42,10 +42,18 @@ type c08Cfg struct {
 	chunk    int  // 0 = unlimited
 	sched    []int
 	eofData  bool // the last bytes arrive together with io.EOF
+	bufSize  int  // size of the bufio.Reader's buffer (0 = 4096)
+}
+
+func (c c08Cfg) bufio() int {
+	if c.bufSize == 0 {
+		return 4096
+	}
+	return c.bufSize
 }
 
 func (c c08Cfg) String() string {
-	return fmt.Sprintf("records of %d bytes, explicit size=%v, %s reader, chunk=%d, first reads=%v, EOF with the last bytes=%v", 188+c.k, c.explicit, rkNames[c.reader], c.chunk, c.sched, c.eofData)
+	return fmt.Sprintf("records of %d bytes, explicit size=%v, %s reader, chunk=%d, first reads=%v, EOF with the last bytes=%v", 188+c.k, c.explicit, rkNames[c.reader], c.chunk, c.sched, c.eofData) + fmt.Sprintf(", bufio size=%d", c.bufio())
 }
 
 // c08Outputs returns the canonical NextPacket and NextData sequences under a configuration.
@@ -61,7 +69,7 @@ func c08Outputs(data []byte, c c08Cfg) (pkts []string, items []string, errs []st
 				r = seekFaultReader{fr}
 			}
 		case rkBufio:
-			r = bufio.NewReaderSize(fr, 4096)
+			r = bufio.NewReaderSize(fr, c.bufio())
 		}
 		var opts []func(*astits.Demuxer)
 		if c.explicit {
@@ -94,7 +102,7 @@ func c08Outputs(data []byte, c c08Cfg) (pkts []string, items []string, errs []st
 }
 
 func TestC08Reading(t *testing.T) {
-	rec := obs.NewRecorder("C08", "reading", "rapid: well-formed streams (>= 2 packets, a null packet first) x ~25 configurations each: read schedules {unlimited, fixed chunk 1..400, random first reads; io.EOF reported with the last bytes or by a separate Read} x reader {plain, seekable, bufio.Reader} x {explicit size, auto-detection} x record size 188+k (k in 0..4 with auto-detection, k in {0,4,16,1..64} explicit; sync byte + k extra bytes + 187 bytes); oracle: the NextPacket and NextData sequences equal those of the reference configuration (explicit 188, bytes.Reader, unfragmented); for a plain non-seekable reader with auto-detection (documented to consume the detection window) the chunked run must equal the unchunked run and every returned packet must be an unaltered packet of the stream in order; non-trivial = every case; distinct by stream bytes")
+	rec := obs.NewRecorder("C08", "reading", "rapid: well-formed streams (>= 2 packets, a null packet first) x ~25 configurations each: read schedules {unlimited, fixed chunk 1..400, random first reads; io.EOF reported with the last bytes or by a separate Read} x reader {plain, seekable, bufio.Reader with a buffer of 16..4096 bytes} x {explicit size, auto-detection} x record size 188+k (k in 0..4 with auto-detection, k in {0,4,16,1..64} explicit; sync byte + k extra bytes + 187 bytes); oracle: the NextPacket and NextData sequences equal those of the reference configuration (explicit 188, bytes.Reader, unfragmented); for a plain non-seekable reader with auto-detection (documented to consume the detection window) the chunked run must equal the unchunked run and every returned packet must be an unaltered packet of the stream in order; non-trivial = every case; distinct by stream bytes")
 	defer rec.Flush()
 	rapid.Check(t, func(t *rapid.T) {
 		o := defaultStreamOpts()
@@ -117,8 +125,10 @@ func TestC08Reading(t *testing.T) {
 		}
 		nconf := 0
 		eofs := rapid.SliceOfN(rapid.Bool(), 32, 32).Draw(t, "eofwithdata")
+		bufSizes := rapid.SliceOfN(rapid.SampledFrom([]int{16, 64, 187, 188, 192, 193, 500, 4096}), 32, 32).Draw(t, "bufiosizes")
 		try := func(c c08Cfg, extra func(int) byte) {
 			c.eofData = eofs[nconf%32]
+			c.bufSize = bufSizes[nconf%32]
 			data := frame(stream, c.k, extra)
 			gp, gd, ge := c08Outputs(data, c)
 			nconf++
@@ -256,7 +266,7 @@ func c08Reader(data []byte, c c08Cfg) (io.Reader, []func(*astits.Demuxer)) {
 	case rkSeek:
 		r = bytes.NewReader(data)
 	case rkBufio:
-		r = bufio.NewReaderSize(fr, 4096)
+		r = bufio.NewReaderSize(fr, c.bufio())
 	}
 	var opts []func(*astits.Demuxer)
 	if c.explicit {
@@ -294,7 +304,7 @@ func c08Outcomes(data []byte, c c08Cfg, api int) []string {
 // TestC08Tails: inputs that are not a whole number of packets - nothing at all, less than one packet, whole packets
 // followed by the first bytes of another one.
 func TestC08Tails(t *testing.T) {
-	rec := obs.NewRecorder("C08", "tails", "deterministic sweep: a fixed well-formed stream cut after N = 0..3 whole records of 188 and 192 bytes plus EVERY tail length 0..record-1 (the first bytes of the next record), read through {plain, seekable, bufio} x {explicit size, auto-detection} x {NextPacket, NextData}; relations: with an explicit size every reader kind gives the outcome sequence (packets/items, errors, ErrNoMorePackets) of the seekable reader; with auto-detection the seekable and the bufio reader give the sequence of the explicit size (when the input holds a single sync byte within the 193-byte window the size cannot be detected: both must then agree with each other), the plain reader (whose detection window is consumed, as documented) a suffix of it that ends the same way; distinct by construction")
+	rec := obs.NewRecorder("C08", "tails", "deterministic sweep: a fixed well-formed stream cut after N = 0..3 whole records of 188 and 192 bytes plus EVERY tail length 0..record-1 (the first bytes of the next record), read through {plain, seekable, bufio, bufio with a buffer smaller than a packet} x {explicit size, auto-detection} x {NextPacket, NextData}; relations: with an explicit size every reader kind gives the outcome sequence (packets/items, errors, ErrNoMorePackets) of the seekable reader; with auto-detection the seekable and the bufio reader give the sequence of the explicit size (when the input holds a single sync byte within the 193-byte window the size cannot be detected: both must then agree with each other), the plain reader (whose detection window is consumed, as documented) a suffix of it that ends the same way; and inputs of 186..196 bytes give the same outcomes whichever record size was detected just before in the process; distinct by construction")
 	defer rec.Flush()
 	pts := uint64(77)
 	var cc0, cc1, cc2 uint8
@@ -315,9 +325,12 @@ func TestC08Tails(t *testing.T) {
 				for api := 0; api < 2; api++ {
 					want := c08Outcomes(data, c08Cfg{k: k, explicit: true, reader: rkSeek}, api)
 					var autoSeek []string
-					for _, reader := range []int{rkSeek, rkBufio, rkPlain} {
+					for ri, reader := range []int{rkSeek, rkBufio, rkBufio, rkPlain} {
 						for _, explicit := range []bool{true, false} {
 							c := c08Cfg{k: k, explicit: explicit, reader: reader}
+							if ri == 2 {
+								c.bufSize = 16 + (n*rs+tail)%180 // a bufio.Reader whose buffer is smaller than a packet
+							}
 							got := c08Outcomes(data, c, api)
 							total++
 							ok := equalStrings(got, want)
@@ -343,6 +356,26 @@ func TestC08Tails(t *testing.T) {
 								t.Fatalf("%d records of %d bytes + %d bytes, %s, api %d: outcomes %v, reference (explicit size, seekable) %v", n, rs, tail, c, api, shortOutcomes(got), shortOutcomes(want))
 							}
 						}
+					}
+				}
+			}
+		}
+	}
+	// what a short input gives must not depend on which stream this process detected before (a detection window that is
+	// reused without being cleared would remember the other stream's sync bytes)
+	for l := 186; l <= 196; l++ {
+		for _, reader := range []int{rkSeek, rkBufio, rkPlain} {
+			for api := 0; api < 2; api++ {
+				var first []string
+				for hi, k := range []int{0, 4, 1, 0} {
+					history := frame(stream, k, func(i int) byte { return byte(0x80 | i%100) })
+					c08Outcomes(history, c08Cfg{k: k, reader: rkSeek}, 0)
+					got := c08Outcomes(stream[:l], c08Cfg{reader: reader}, api)
+					total++
+					if hi == 0 {
+						first = got
+					} else if !equalStrings(got, first) {
+						t.Fatalf("input of %d bytes, auto-detection, %s reader, api %d: outcomes %v after a stream of %d-byte records was demuxed, %v after one of 188-byte records", l, rkNames[reader], api, shortOutcomes(got), 188+k, shortOutcomes(first))
 					}
 				}
 			}
